@@ -154,6 +154,16 @@ Lemma p_alt_err {A} (p q : parser A) s s' :
   p_alt p q s = PErr s' -> (exists e, p s = PErr e) /\ q s = PErr s'.
 Proof. unfold p_alt. destruct (p s) as [s1 a1|e|]; [discriminate | eauto | discriminate]. Qed.
 
+Lemma p_restore_ok {A} (p : parser A) s s' a : p_restore p s = POk s' a -> p s = POk s' a.
+Proof. unfold p_restore. destruct (p s); [auto | discriminate | discriminate]. Qed.
+
+(* a restoring parser fails at its own input *)
+Lemma p_restore_err {A} (p : parser A) s s' : p_restore p s = PErr s' -> s' = s /\ exists e, p s = PErr e.
+Proof. unfold p_restore. destruct (p s) as [s1 a|e|]; [discriminate | intros [= <-]; eauto | discriminate]. Qed.
+
+Lemma p_restore_fuel {A} (p : parser A) s : p_restore p s = PFuel -> p s = PFuel.
+Proof. unfold p_restore. destruct (p s); [discriminate | discriminate | auto]. Qed.
+
 Lemma p_info_ok {A} (p : parser A) s s' ai :
   p_info p s = POk s' ai ->
   exists s1, p (set_ebuf s []) = POk s1 (fst ai) /\ s' = set_ebuf s1 (ebuf s) /\
@@ -331,6 +341,12 @@ Lemma Fwd_alt {A} (p q : parser A) : Fwd p -> Fwd q -> Fwd (p_alt p q).
 Proof.
   intros Hp Hq s Hs. unfold p_alt. specialize (Hp s Hs). specialize (Hq s Hs).
   destruct (p s); [exact Hp | exact Hq | exact I].
+Qed.
+
+Lemma Fwd_restore {A} (p : parser A) : Fwd p -> Fwd (p_restore p).
+Proof.
+  intros Hp s Hs. unfold p_restore. specialize (Hp s Hs).
+  destruct (p s); cbn; [exact Hp | now apply Mv_refl | exact I].
 Qed.
 
 Lemma Fwd_opt {A} (p : parser A) : Fwd p -> Fwd (p_opt p).
